@@ -482,6 +482,14 @@ def gen_rest_ticks(shard):
             yield {"comp": comp, "bpm": 120, "repeat": 0, "apis": ["bar", "track"]}
             yield {"comp": comp, "bpm": 120, "repeat": 1, "apis": ["track"]}
     if 1 in shard:
+        # full bars whose entries round down, so that the bar is a tick or two shorter than its meter says: the next bar
+        # (and the next pass) starts where the entries end
+        for pat, m in (([("N", 64), ("M", 64)], (1, 32)), ([("N", 28)] * 7, (1, 4)), ([("N", 128), ("R", 128), ("CH", 128), ("M", 128)], (1, 32)),
+                       ([("N", 64)] * 4 + [("R", 64)] * 4, (1, 8)), ([("N", 28), ("R", 28)] * 7, (2, 4))):
+            bars = [Z.bar_recipe(pat, meter=m), Z.bar_recipe([("N", 4)], meter=(1, 4)), Z.bar_recipe(pat, meter=m)]
+            for repeat in (0, 1):
+                yield {"comp": {"tracks": [{"name": None, "instrument": None, "bars": bars}]}, "bpm": 120, "repeat": repeat, "apis": ["track"]}
+    if 1 in shard:
         # long silences: whole bars of rest in front of a note (delta times around the 2-byte / 3-byte boundary 16384)
         for nb in (1, 14, 15, 56, 57, 58):
             bars = [Z.bar_recipe([("R", 1)]) for _ in range(nb)] + [Z.bar_recipe([("R", ["ticks", 32]), ("N", 4)])]
